@@ -492,6 +492,10 @@ func (h *H) sweep() {
 			qq = h.decorate(q)
 		}
 		listed = append(listed, h.list(qq)...)
+		if h.rng.Chance(1, 3) { // the same listing through a callback that returns an error (Go-side check)
+			keys, ok := h.lastList[qkey(qq)]
+			h.listCb(qq, ok, keys)
+		}
 	}
 	seen := map[digest.Digest]bool{}
 	for _, m := range listed {
